@@ -188,6 +188,13 @@ func (w *World) withChainChange(t *rapid.T, action func()) {
 
 // actMempool delivers one unconfirmed transaction to the handler.
 func (w *World) actMempool(t *rapid.T) {
+	if !w.tryMempool(t) {
+		t.Skip("nothing to spend")
+	}
+}
+
+// tryMempool reports false when no transaction could be built.
+func (w *World) tryMempool(t *rapid.T) bool {
 	view := w.chainView(t)
 	next := w.node.Height() + 1
 	// coins: confirmed spendable + outputs of pending transactions
@@ -234,7 +241,7 @@ func (w *World) actMempool(t *rapid.T) {
 		kinds = append(kinds, "duplicate")
 	}
 	if len(kinds) == 0 {
-		t.Skip("nothing to spend")
+		return false
 	}
 	kind := rapid.SampledFrom(kinds).Draw(t, "mempoolKind")
 	var tx *wire.MsgTx
@@ -322,6 +329,7 @@ func (w *World) actMempool(t *rapid.T) {
 	if w.txRelevant(tx, false) {
 		w.pending[h] = tx
 	}
+	return true
 }
 
 // readBucket returns all entries of a nested bucket of the wallet database.
